@@ -59,7 +59,7 @@ def clear_caches():
         if f is not None and hasattr(f, "cache_clear"): f.cache_clear()
 
 def impl_json(v):
-    clear_caches()
+    # the memoisation of json_encode is left alone: what an earlier value left in a cache is part of what is tested
     try:
         out = v.json_encode()
         return ["ok", [] if out is None else [out]]
